@@ -54,15 +54,23 @@ Definition sizes_ok (src tgt : cloud) : bool :=
 (* M = einsum(target - ctntarget, source - ctnsource) *)
 Definition svdtf_M (src tgt : cloud) : mat3 := crosscov (centered tgt) (centered src).
 Definition det_tol : F := frac 1 1000000.
-(* R = U @ Vh;  mask = (R.det() + 1).abs() < 1e-6;  R[mask] = - R[mask] *)
+(* R = U @ Vh;  mask = (R.det() + 1).abs() < 1e-6 *)
 Definition svdtf_flip (U Vh : mat3) : bool := absF (mdet3 (mmul3 U Vh) + one) <? det_tol.
-Definition svdtf_rot (U Vh : mat3) : mat3 :=
-  let R := mmul3 U Vh in if svdtf_flip U Vh then mneg3 R else R.
+(* current source (after fix 23d9fa1):
+   D = ones_like(S);  D[..., -1] = 1 - 2 * mask;  R = (U * D.unsqueeze(-2)) @ Vh   [= U diag(D) Vh] *)
+Definition svdtf_D (U Vh : mat3) : vec3 :=
+  (one, one, one - two * (if svdtf_flip U Vh then one else zero)).
+Definition svdtf_rot (U Vh : mat3) : mat3 := mmul3 (mmul3 U (diag3 (svdtf_D U Vh))) Vh.
 (* t = ctntarget - R @ ctnsource *)
 Definition svdtf_mat (src tgt : cloud) (U Vh : mat3) : mat3 * vec3 :=
   let R := svdtf_rot U Vh in (R, vsub (centroid tgt) (mvmul R (centroid src))).
+(* history: the source before 23d9fa1 negated the whole matrix,  R[mask] = - R[mask] *)
+Definition svdtf_rot_old (U Vh : mat3) : mat3 :=
+  let R := mmul3 U Vh in if svdtf_flip U Vh then mneg3 R else R.
+Definition svdtf_mat_old (src tgt : cloud) (U Vh : mat3) : mat3 * vec3 :=
+  let R := svdtf_rot_old U Vh in (R, vsub (centroid tgt) (mvmul R (centroid src))).
 
-(* what the docstring promises (and the minimal repair): flip the last singular direction only *)
+(* the textbook form: flip the last singular direction only (the repaired code is proved equal to it) *)
 Definition kabsch_rot (U Vh : mat3) : mat3 :=
   mmul3 (mmul3 U (diag3 (one, one, mdet3 (mmul3 U Vh)))) Vh.
 Definition kabsch_mat (src tgt : cloud) (U Vh : mat3) : mat3 * vec3 :=
@@ -183,6 +191,10 @@ Variable svd : @mat3 F -> @mat3 F * @vec3 F * @mat3 F.       (* torch.linalg.svd
 Definition svdtf (src tgt : cloud) : option se3elt :=
   if sizes_ok src tgt then
     let '(U, _, Vh) := svd (svdtf_M src tgt) in mat2SE3 false (svdtf_mat src tgt U Vh)
+  else None.
+Definition svdtf_old (src tgt : cloud) : option se3elt :=
+  if sizes_ok src tgt then
+    let '(U, _, Vh) := svd (svdtf_M src tgt) in mat2SE3 false (svdtf_mat_old src tgt U Vh)
   else None.
 Definition svdstf (with_scale : bool) (src tgt : cloud) : option sim3elt :=
   if sizes_ok src tgt then
